@@ -17,7 +17,7 @@ import (
 	"github.com/bartventer/httpcache/store/memcache"
 )
 
-const TestKeyB64 = "MDEyMzQ1Njc4OWFiY2RlZjAxMjM0NTY3ODlhYmNkZWY=" // 32 bytes
+const TestKeyB64 = "MDEyMzQ1Njc4OWFiY2RlZjAxMjM0NTY3ODlhYmNkZWY="  // 32 bytes
 const OtherKeyB64 = "ZmVkY2JhOTg3NjU0MzIxMGZlZGNiYTk4NzY1NDMyMTA=" // another 32 bytes
 
 // MakeValue builds a self-describing value: "<id>|<payload len>|<hash>|payload".
@@ -94,7 +94,7 @@ func ScratchDir() string {
 	return d
 }
 
-func pick[T any](r *rand.Rand, xs []T) T { return xs[r.IntN(len(xs))] }
+func pick[T any](r *rand.Rand, xs []T) T  { return xs[r.IntN(len(xs))] }
 func chance(r *rand.Rand, p float64) bool { return r.Float64() < p }
 
 // KeyPool builds an adversarial key set around the file-name mapping.
